@@ -8,8 +8,8 @@ impl<T, M> Iterator for Wrapped<T, M> { type Item = T; fn next(&mut self) -> Opt
 fn main() {
     let col: Vec<String> = vec![String::from("a"), String::from("b"), String::from("c")];
     let it = col.con_iter();
-    let c = it.next_chunk(2);
-    drop(col);
+    let r = it.next();
+    if let Some(x) = r { let _y = x.clone(); }
     let r = it.next();
     if let Some(x) = r { let _y = x.clone(); }
 }
